@@ -16,8 +16,10 @@ def paths_cases(maxsegs):
         cases.append(json.loads(json.loads('"' + m.group(1) + '"')))
     return r, cases
 
+EXTRAS = ("extra_one.log", "sub/dir/extra_two.log", ".side.log", "sub/.index", "sub/dir/x..y_-z", ".hid/f")
+
 def run_case(case, incase, driver):
-    """one-task workflow: cat {i:in} > {o:out}, plus two extra files; returns dict(ok, where, detail)"""
+    """one-task workflow: cat {i:in} > {o:out}, plus extra files (nested, dot-leading, dotted names); returns dict(ok, where, detail)"""
     W = scratch("c13")
     try:
         cwd = os.path.join(W, "c1", "c2", "r", "w")
@@ -43,7 +45,8 @@ def run_case(case, incase, driver):
         spec = dict(name="C13", max=1, bufsize=1, mode="run", targets=[], patterns=[], edges=[dict(**{"from": "s.out", "to": "a.in"})], pedges=[], feeds=[],
                     procs=[dict(name="s", kind="src", paths=[inp]),
                            dict(name="a", kind="cmd", ins=["in"], outs=["out"], outpaths={"out": outp},
-                                arg="cat {i:in} > {o:out} && echo E1 > extra_one.log && mkdir -p sub/dir && echo E2 > sub/dir/extra_two.log")])
+                                arg="cat {i:in} > {o:out} && echo E1 > extra_one.log && mkdir -p sub/dir && echo E2 > sub/dir/extra_two.log"
+                                    " && echo E3 > .side.log && echo E4 > sub/.index && echo E5 > sub/dir/x..y_-z && mkdir -p .hid && echo E6 > .hid/f")])
         json.dump(spec, open(os.path.join(cwd, "wf.json"), "w"))
         env = dict(os.environ, SCIPIPE_BUFSIZE="1")
         p = subprocess.run([driver, "wf.json"], cwd=cwd, env=env, capture_output=True, text=True, timeout=60)
@@ -56,7 +59,7 @@ def run_case(case, incase, driver):
                 try:
                     if open(full).read() == token: where.append(full)
                 except Exception: pass
-        extras_ok = os.path.exists(os.path.join(cwd, "extra_one.log")) and os.path.exists(os.path.join(cwd, "sub/dir/extra_two.log"))
+        extras_ok = all(os.path.exists(os.path.join(cwd, x)) for x in EXTRAS)
         leftovers = [d for d in os.listdir(cwd) if d.startswith("_scipipe_tmp")]
         return dict(ok=ok, want=want_out, where=where, extras_ok=extras_ok, leftovers=leftovers, rc=p.returncode,
                     err=(p.stderr or "")[-300:], rel=lambda x: os.path.relpath(x, W))
